@@ -58,6 +58,13 @@ theorem unansweredV_notBase (s : UState) (e : IceSpec.C12.EP) : notBase (unanswe
 theorem noLearnV_notBase (fx : Fx) : notBase (noLearnV fx) := by
   unfold noLearnV; split <;> trivial
 
+theorem recordedV_notBase (src : Addr) (v : Nat) (key : Addr) (v' : Nat) :
+    notBase (IceSpec.C12Uni.recordedV src v key v') := by
+  unfold IceSpec.C12Uni.recordedV
+  split
+  · trivial
+  · split <;> trivial
+
 theorem inboundV_notBase (s : UState) (src : Addr) (k : Kind) (x : XView) (o : Out) (fx : Fx)
     (h : IceSpec.C12.inboundVerdict s.base src k o = none) : notBase (inboundV s src k x o fx) := by
   unfold inboundV
@@ -65,15 +72,20 @@ theorem inboundV_notBase (s : UState) (src : Addr) (k : Kind) (x : XView) (o : O
   rw [h]
   split
   · split
-    · trivial
-    · trivial
+    · split <;> trivial
+    · refine notBase_orElse _ _ trivial ?_
+      split
+      · split <;> trivial
+      · trivial
   · split
     · trivial
     · split
-      · trivial
       · split
         · trivial
-        · cases o <;> trivial
+        · split
+          · trivial
+          · cases o <;> trivial
+      · exact notBase_orElse _ _ trivial (recordedV_notBase _ _ _ _)
 
 theorem baseStep_inbound_snd (s : IceSpec.C12.SState) (src : Addr) (k : Kind) (pid : Nat) (o : Out) :
     (IceSpec.C12.step s (.inbound src k pid) o).2 = IceSpec.C12.inboundVerdict s src k o := by
